@@ -1,0 +1,84 @@
+//go:build verif
+
+package pokertable
+
+// Read-only accessors and one interposition point used by the verification harness in
+// /verif.  Compiled only with -tags verif; without the tag the package is unchanged.
+
+import (
+	"github.com/weedbox/pokertable/open_game_manager"
+	"github.com/weedbox/pokertable/seat_manager"
+)
+
+// VerifWrapTableEngine replaces the engine registered under tableID by wrap(engine).
+func VerifWrapTableEngine(m Manager, tableID string, wrap func(TableEngine) TableEngine) bool {
+	mm, ok := m.(*manager)
+	if !ok {
+		return false
+	}
+	v, exist := mm.tableEngines.Load(tableID)
+	if !exist {
+		return false
+	}
+	mm.tableEngines.Store(tableID, wrap(v.(TableEngine)))
+	return true
+}
+
+// VerifHasTable reports whether the manager's registry holds tableID.
+func VerifHasTable(m Manager, tableID string) bool {
+	mm, ok := m.(*manager)
+	if !ok {
+		return false
+	}
+	_, exist := mm.tableEngines.Load(tableID)
+	return exist
+}
+
+func VerifSeatManager(te TableEngine) seat_manager.SeatManager {
+	if e, ok := te.(*tableEngine); ok {
+		return e.sm
+	}
+	return nil
+}
+
+func VerifOpenGameManager(te TableEngine) open_game_manager.OpenGameManager {
+	if e, ok := te.(*tableEngine); ok {
+		return e.ogm
+	}
+	return nil
+}
+
+// VerifJoinGroupStates: the ready group that waits for newly reserved players to join.
+func VerifJoinGroupStates(te TableEngine) map[int64]bool {
+	if e, ok := te.(*tableEngine); ok && e.rg != nil {
+		return e.rg.GetParticipantStates()
+	}
+	return nil
+}
+
+// VerifGameGroupStates: the running hand's ready group (ready / ante / blinds requests).
+func VerifGameGroupStates(te TableEngine) map[int64]bool {
+	if e, ok := te.(*tableEngine); ok && e.game != nil {
+		if g, ok := e.game.(*game); ok && g.rg != nil {
+			return g.rg.GetParticipantStates()
+		}
+	}
+	return nil
+}
+
+// VerifGameQueueLen: hand states produced by the backend and not yet delivered to the table.
+func VerifGameQueueLen(te TableEngine) int {
+	if e, ok := te.(*tableEngine); ok && e.game != nil {
+		if g, ok := e.game.(*game); ok {
+			return len(g.incomingStates)
+		}
+	}
+	return 0
+}
+
+func VerifIsReleased(te TableEngine) bool {
+	if e, ok := te.(*tableEngine); ok {
+		return e.isReleased
+	}
+	return false
+}
